@@ -1,14 +1,14 @@
 package t0142
 
-type G1 struct {
-	F0x0 *int32
+type G2 struct {
+	F0x0x0 int32
+	F0x0x1 int64
 }
 
-type G2 struct {
-	F1x0 int64
+type G1 struct {
+	F0x0 *G2
 }
 
 type T struct {
-	F0 G1
-	F1 G2
+	F0 *G1
 }
